@@ -935,3 +935,49 @@ func runBMSetConst(rc *RuleCtx) {
 		}
 	}
 }
+
+// ---------------------------------------------------------------------------------------------
+// FIELDLISTFIRST
+// ---------------------------------------------------------------------------------------------
+
+func init() {
+	register(&Rule{
+		Name:     "FIELDLISTFIRST",
+		Doc:      "a declared list of fields is mirrored as a whole: the thrift descriptor builder (package thrift) does not pick element [0] of a `[]*parser.Field` of the IDL syntax tree (a function's Throws, its Arguments) — it ranges over the list. parseResponse built the response struct from `fn.Throws[0]` only: for `throws (1: E1 e1, 2: E2 e2)` field 2 was unknown to FieldById / FieldByKey, a response carrying e2 converted to `{}` with a nil error. (`fn.Arguments[0]` stays, exempted by name: a kitex method takes exactly one request struct and the parser rejects an empty list.)",
+		Configs:  "NP",
+		Floor:    map[string]int{"N": 1, "P": 1},
+		Controls: 1,
+		Run:      runFieldListFirst,
+	})
+}
+
+func runFieldListFirst(rc *RuleCtx) {
+	p := rc.W.Pkg("thrift")
+	for _, f := range p.Syntax {
+		for _, d := range f.Decls {
+			fd, ok := d.(*ast.FuncDecl)
+			if !ok || fd.Body == nil {
+				continue
+			}
+			name := declName("thrift", fd)
+			ast.Inspect(fd.Body, func(n ast.Node) bool {
+				ix, ok := n.(*ast.IndexExpr)
+				if !ok {
+					return true
+				}
+				tv, ok := p.TypesInfo.Types[ix.Index]
+				if !ok || tv.Value == nil || tv.Value.ExactString() != "0" {
+					return true
+				}
+				t := p.TypesInfo.TypeOf(ix.X)
+				if t == nil || !strings.HasSuffix(t.String(), "parser.Field") || !strings.HasPrefix(t.String(), "[]") {
+					return true
+				}
+				rc.Examined++
+				rc.add(nil, name, "first of "+types.ExprString(ix.X), ix.Pos(), "violated",
+					"only the first element of the declared field list `"+types.ExprString(ix.X)+"` is used: the descriptor does not mirror the others (they cannot be looked up, values carried by them are dropped)", true)
+				return true
+			})
+		}
+	}
+}
